@@ -144,31 +144,32 @@ def hash_definitions(prog):
     put(fn, "or-node", errs, "Σ over elements of the element hash")
     for adt in ("repr::bdd::BddPtr", "repr::sdd::SddPtr"):
         fn = prog.find1(name="cached_semantic_hash", self_adt=adt, unit="rsdd-lib")
-        r = strip(fn.terms.ret)
         errs = []
-        a = prog.adts.get(adt)
-        vnames = [v["name"] for v in a["variants"]]
-        if r[0] != "gamma":
-            errs.append("not a match on the pointer")
-        else:
-            for lab, v in r[2]:
-                if not isinstance(lab, str) or not lab.isdigit():
-                    continue
-                vn = vnames[int(lab)]
+        vnames = [v["name"] for v in prog.adts[adt]["variants"]]
+        for vn in vnames:
+            if vn not in ("PtrTrue", "PtrFalse", "Var"):
+                continue
+            rs = canon.paths_under(fn, ("param", 1), vn, with_conds=True)
+            if not rs:
+                errs.append("?no value evaluated for %s" % vn)
+                continue
+            for v, conds in rs:
                 v = strip(v)
                 if vn in ("PtrTrue", "PtrFalse"):
                     want = "1" if vn == "PtrTrue" else "0"
                     if not (mir.is_call(v, "new") and strip(v[2][0]) == ("const", "u128", want)) and \
                             not (mir.is_call(v, "one" if want == "1" else "zero")):
                         errs.append("%s hashes to %s, expected %s" % (vn, show(v)[:30], want))
-                if vn == "Var":
-                    if v[0] != "gamma" or "(arg1 as Var).1" not in show(v[1]):
-                        errs.append("literal hash does not depend on the polarity")
-                    else:
-                        for l2, x in v[2]:
-                            fld = "0" if l2 == "0" else "1"
-                            if not _weight(x, ("(arg1 as Var).0",), fld):
-                                errs.append("a %s literal hashes to %s" % ("negative" if fld == "0" else "positive", show(x)[:50]))
+                else:
+                    pol = None
+                    for c, lab, _ in conds:
+                        if "(arg1 as Var).1" in show(c):
+                            pol = "0" if lab == "0" else "1"
+                    if pol is None:
+                        # polarity decided by matching on the literal's own field values: Var(l, true) / Var(l, false)
+                        errs.append("?literal hash does not depend on the polarity in a way the rule reads: %s" % show(v)[:50])
+                    elif not _weight(v, ("(arg1 as Var).0",), pol):
+                        errs.append("a %s literal hashes to %s" % ("negative" if pol == "0" else "positive", show(v)[:50]))
         put(fn, "terminals", errs, "⊤ ↦ 1, ⊥ ↦ 0, literal ↦ weight of its polarity")
     # the (low, high) weight pair: built in a closure mapped over the variables, or in the loop that fills the table
     top = prog.find1(name="create_semantic_hash_map", unit="rsdd-lib")
